@@ -27,10 +27,10 @@ type life struct {
 }
 
 type family struct {
-	lives  int
-	writes []string
-	tx     bool
-	re     bool
+	lives   int
+	writes  []string
+	tx      bool
+	re      bool
 	perLife []life
 }
 
